@@ -170,6 +170,14 @@ func Build(level int) []Entry {
 			addRef(fmt.Sprintf("row-%s-st%x", tdsval.Names[f.DT], st), tdspkg.Data{Row: true, Fmts: []tdspkg.Fmt{g}, Values: []interface{}{vs[i]}, Lens: []int{ls[i]}}, tdspkg.RowFmt{Wide: true, Fmts: []tdspkg.Fmt{g}})
 		}
 	}
+	// every single status bit of the 4-byte status of the wide formats (the narrow ones carry one byte)
+	for bit := uint(0); bit < 32; bit++ {
+		for _, f := range []tdspkg.Fmt{{Name: "i", DT: tdsval.INT4}, {Name: "v", DT: tdsval.VARCHAR, MaxLen: 255}} {
+			f.Status = 1 << bit
+			addRef(fmt.Sprintf("rowfmt2-%s-bit%d", tdsval.Names[f.DT], bit), tdspkg.RowFmt{Wide: true, Fmts: []tdspkg.Fmt{f}}, nil)
+			addRef(fmt.Sprintf("paramfmt2-%s-bit%d", tdsval.Names[f.DT], bit), tdspkg.ParamFmt{Wide: true, Fmts: []tdspkg.Fmt{f, f}}, nil)
+		}
+	}
 	// ---- BLOB columns. The library's BLOB format reader counts its bytes in its own way (known
 	// finding, see C06), so no protocol-conforming ROWFMT with a BLOB column parses. These entries are
 	// crafted to the dialect the library accepts, so that the BLOB data reader is reachable for the
@@ -295,7 +303,28 @@ func Build(level int) []Entry {
 				f2.SetUserType(int32(dt))
 				f2.SetLocaleInfo(str(dt % 5))
 				addLib(fmt.Sprintf("paramfmt-w%v-dt%x-st%x", wide, dt, st), tds.NewParamFmtPackage(wide, f2), nil)
+				// the layout the protocol prescribes for what was SET (not for what the accessors report)
+				want := rx.RefFmt(f2, false)
+				want.Name, want.Status, want.UserType, want.Locale = str(dt%31), uint32(st), int32(dt), str(dt%5)
+				// (types the reference codec has no layout for - placeholders, BLOB - are left to the read-back check)
+				if _, known := tdsval.Names[byte(dt)]; !known || dt == 0x24 {
+					continue
+				}
+				if n := len(out); n > 0 && out[n-1].Name == fmt.Sprintf("paramfmt-w%v-dt%x-st%x", wide, dt, st) {
+					out[n-1].Ref = tdspkg.ParamFmt{Wide: wide, Fmts: []tdspkg.Fmt{want}}
+				}
 			}
+		}
+	}
+	for bit := uint(8); bit < 32; bit++ {
+		f2, _, _ := tds.LookupFieldFmtData(asetypes.INT4)
+		f2.SetName("wide-status")
+		f2.SetStatus(0x20 | 1<<bit)
+		addLib(fmt.Sprintf("paramfmt-wide-status-bit%d", bit), tds.NewParamFmtPackage(true, f2), nil)
+		want := rx.RefFmt(f2, false)
+		want.Name, want.Status = "wide-status", 0x20|1<<bit
+		if n := len(out); n > 0 && out[n-1].Name == fmt.Sprintf("paramfmt-wide-status-bit%d", bit) {
+			out[n-1].Ref = tdspkg.ParamFmt{Wide: true, Fmts: []tdspkg.Fmt{want}}
 		}
 	}
 	return out
